@@ -110,7 +110,9 @@ where
                 // let repeat_till accumulated into () (unit)
                 .map(|((), _)| ())
                 .take()
-                .map(|x: &str| Cow::Borrowed(x.trim_start())),
+                .map(|x: &str| Cow::Borrowed(x.trim_start()))
+                // characters like U+3000 are not separators but are trimmed
+                .verify(|x: &Cow<'i, str>| !x.is_empty()),
             ),
             space0,
         ),
@@ -470,6 +472,13 @@ mod tests {
             expect_parse_ok(posting_account, input),
             (";next_token", Cow::Borrowed("ピカチュウ"))
         );
+    }
+
+    #[test]
+    fn posting_account_rejects_blank_name() {
+        posting_account::<ContextError>
+            .parse_peek(LocatingSlice::new("\u{3000}  1 USD\n"))
+            .expect_err("account made only of white space must be rejected");
     }
 
     #[test]
